@@ -114,6 +114,7 @@ fn main() {
                         "goalstrings" => suite_parse::run_exhaustive_goal_strings(&mut out, &cfg, n, shard, nshards),
                         "spellings" => suite_parse::run_spellings(&mut out, &cfg, seed, n),
                         "contexts" => suite_parse::run_contexts(&mut out, &cfg, seed, n),
+                        "ctxstrings" => suite_parse::run_exhaustive_contexts(&mut out, &cfg, n, shard, nshards),
                         "reader" => suite_parse::run_reader(&mut out, &cfg, seed, n),
                         _ => { eprintln!("unknown kind"); std::process::exit(2); },
                     }
